@@ -93,6 +93,21 @@ Theorem C38_then_never_silent :
     then_chain (hb_then shipped_handback) d RaiseDryRun <> PyError.
 Proof. exact then_never_silent. Qed.
 
+(** a later execution on the same backend: a value is replayed, a failed sub-execution is run again,
+    exactly as direct evaluation does (both modes, all outcomes) *)
+Theorem C38_second_execution_eq_direct :
+  forall new_execution o1 o2, o1 <> ODry ->
+    second_execution_subrun shipped_handback new_execution o1 o2 = second_execution_direct shipped_handback o1 o2.
+Proof. exact second_execution_eq_direct. Qed.
+
+(** the earlier shape of _subrun_root_task (failure of an extending sub-execution returned as the job's VALUE)
+    is refuted: the error is replayed by the next execution and the repaired sub-workflow never runs *)
+Theorem C38_value_shape_replays_failure_refuted :
+  exists o1 o2,
+    second_execution_subrun value_handback false o1 o2 = (Raise 1, false) /\
+    second_execution_direct value_handback o1 o2 = (RetV 2, true).
+Proof. exact value_shape_replays_failure_refuted. Qed.
+
 (** (a') the context the sub-workflow starts from is the calling job's, with new_execution on and off,
     for every config-level context, run() context and chain of update_context overrides *)
 Theorem C38_forwarded_context_is_callers :
@@ -178,6 +193,8 @@ Print Assumptions C38_get_cache_total.
 Print Assumptions C38_subrun_eq_direct.
 Print Assumptions C38_replayed_dict_eq_direct.
 Print Assumptions C38_then_never_silent.
+Print Assumptions C38_second_execution_eq_direct.
+Print Assumptions C38_value_shape_replays_failure_refuted.
 Print Assumptions C38_forwarded_context_is_callers.
 Print Assumptions C38_root_key_separates_modes.
 Print Assumptions C38_unwrapped_root_is_single_job.
